@@ -77,7 +77,7 @@ def run(chk):
 
 
 def r_set_p_values(chk):
-    fn = chk.fn(REL, "Assertion.set_p_values")
+    fn = chk.fn(REL, "Assertion.set_p_values", canonical=True)
     where = W("Assertion.set_p_values")
     params = [a.arg for a in fn.args.args]
     outer = [l for l in top_loops(fn) if items_loop(l)]
